@@ -42,6 +42,8 @@ pub struct Stream {
     pub overlapped: bool,
     /// length of the first accepted fragment
     pub first_len: usize,
+    /// start offsets of the accepted fragments in arrival order
+    pub order: Vec<u32>,
 }
 
 impl Stream {
@@ -56,6 +58,7 @@ impl Stream {
             accepted: 0,
             overlapped: false,
             first_len: 0,
+            order: Vec::new(),
         }
     }
     /// Records an accepted fragment. Returns (overlapped existing bytes,
@@ -98,6 +101,9 @@ impl Stream {
         if self.accepted == 0 {
             self.first_len = bytes.len();
         }
+        if self.order.len() < 16 {
+            self.order.push(start as u32);
+        }
         self.accepted += 1;
         (overlapped, all_dup)
     }
@@ -125,6 +131,19 @@ impl Stream {
         }
         gaps
     }
+    /// Permutation pattern of the arrival order (ranks of the start offsets
+    /// of the first 16 accepted fragments; duplicates share a rank).
+    pub fn arrival_signature(&self) -> u64 {
+        let mut sorted = self.order.clone();
+        sorted.sort_unstable();
+        sorted.dedup();
+        let mut d = crate::prng::Digest::new();
+        for o in &self.order {
+            d.u64(sorted.binary_search(o).unwrap_or(0) as u64);
+        }
+        d.finish()
+    }
+
     /// is `v` a value that was delivered for offset `i`?
     pub fn value_ok(&self, i: usize, v: u8) -> bool {
         if self.data.get(i) == Some(&v) {
